@@ -142,7 +142,7 @@ struct Scn {
         auto &w = jobs[j].watch;
         w.sc = this;
         w.j = j;
-        w.set_resume_fn(&JobRec::Watch::fire);
+        w.VN_awaiter_set_resume_fn(&JobRec::Watch::fire);
         bool waiting = jobs[j].futv ? jobs[j].futv->subscribe(&w) : jobs[j].fut->subscribe(&w);
         if (!waiting) on_future(j);
     }
@@ -244,7 +244,7 @@ struct Scn {
             sc->jobs[j2].kind = "co";
             bool react = *j >= 0 && sc->jobs[*j].prims.find('r') != npos;
             sc->jobs[j2].prims = *rest + (react && rest->find('r') == npos ? "r" : "");
-            sc->log("submit j" + std::to_string(j2) + " co " + tid() + " exit=" + (sc->pool && sc->pool->_exit ? "1" : "0"));
+            sc->log("submit j" + std::to_string(j2) + " co " + tid() + " exit=" + (sc->pool && sc->pool->VN_thread_pool__exit ? "1" : "0"));
             *j = j2;
             return false;
         }
@@ -364,7 +364,7 @@ struct Scn {
         jobs[j].kind = "aw";
         jobs[j].prims = slots[n].prims;
         slots[n].job = j;
-        log("submit j" + std::to_string(j) + " aw " + tid() + " exit=" + (pool->_exit ? "1" : "0"));
+        log("submit j" + std::to_string(j) + " aw " + tid() + " exit=" + (pool->VN_thread_pool__exit ? "1" : "0"));
         slots[n].prom(5);
     }
     async<void> aw_job(int j) {
@@ -415,7 +415,7 @@ struct Scn {
         jobs[j].id = j;
         jobs[j].kind = kind;
         jobs[j].prims = prims;
-        log("submit j" + std::to_string(j) + " " + kind + " " + tid() + " exit=" + (pool->_exit ? "1" : "0"));
+        log("submit j" + std::to_string(j) + " " + kind + " " + tid() + " exit=" + (pool->VN_thread_pool__exit ? "1" : "0"));
         if (kind == "co") {
             co_job(j).detach();
         } else if (kind == "fn") {
@@ -510,11 +510,11 @@ struct Scn {
             log("job j" + std::to_string(jb.id) + " " + jb.kind + " ran=" + std::to_string(jb.ran) + " cancelled=" + std::to_string(jb.cancelled) +
                 " value=" + std::to_string(jb.value) + " on=" + (jb.ran_on < 0 ? std::string("-") : "t" + std::to_string(jb.ran_on)) + " fut=" + fs);
         }
-        if (pool) log("pool exit=" + std::string(pool->_exit ? "1" : "0") + " queue=" + std::to_string(pool->_queue.size()) +
-                      " threads=" + std::to_string(pool->_threads.size()));
+        if (pool) log("pool exit=" + std::string(pool->VN_thread_pool__exit ? "1" : "0") + " queue=" + std::to_string(pool->VN_thread_pool__queue.size()) +
+                      " threads=" + std::to_string(pool->VN_thread_pool__threads.size()));
         else log("pool destroyed");
         if (has_b) {
-            if (poolB) log("poolB exit=" + std::string(poolB->_exit ? "1" : "0") + " threads=" + std::to_string(poolB->_threads.size()));
+            if (poolB) log("poolB exit=" + std::string(poolB->VN_thread_pool__exit ? "1" : "0") + " threads=" + std::to_string(poolB->VN_thread_pool__threads.size()));
             else log("poolB destroyed");
         }
     }
@@ -524,13 +524,13 @@ struct Scn {
     void run(int nworkers, const std::vector<std::vector<std::string>> &clients, const std::vector<int> &sched) {
         nw = nworkers;
         pool = new thread_pool(nworkers);
-        S().name_obj(&pool->_mx, "mx");
-        S().name_obj(&pool->_cond, "cv");
-        if (cv_yield) S().yield_on_cv_entry = &pool->_cond;
+        S().name_obj(&pool->VN_thread_pool__mx, "mx");
+        S().name_obj(&pool->VN_thread_pool__cond, "cv");
+        if (cv_yield) S().yield_on_cv_entry = &pool->VN_thread_pool__cond;
         if (has_b) {
             poolB = new thread_pool(1);
-            S().name_obj(&poolB->_mx, "mxB");
-            S().name_obj(&poolB->_cond, "cvB");
+            S().name_obj(&poolB->VN_thread_pool__mx, "mxB");
+            S().name_obj(&poolB->VN_thread_pool__cond, "cvB");
         }
         for (auto &c : clients) {
             std::vector<std::string> ops(c.begin() + 1, c.end());
